@@ -302,6 +302,64 @@ static int run_steal9(int rounds) {
     return 0;
 }
 
+
+// --prim stealsb: stealing from a STAND-BY queue.  vCPU 0 (passive: may be stolen from) is kept busy -- its OS thread is parked
+// in ::usleep -- with T (stealable) asleep on it; vCPU 1 (active stealer) migrates a stealable READY thread M to vCPU 0 (M becomes
+// the head of vCPU 0's stand-by queue), interrupts T (T queues behind M, still registered in vCPU 0's sleep queue) and goes idle.
+// A thread that is stolen must not be in any sleep queue (hSteal.tidx = -1), every thread runs once, and the sleeping-thread
+// counts return to zero.
+struct SB { int id; std::atomic<bool> done{false}; std::atomic<int> ran_on{-9}; uint64_t sleep_us; };
+static void* sb_entry(void* a) {
+    auto w = (SB*)a;
+    vt::Ev("Enter").i("t", w->id).i("v", g_vc.index_of(get_vcpu()));
+    if (w->sleep_us) thread_usleep(w->sleep_us);
+    w->ran_on = g_vc.index_of(get_vcpu());
+    vt::Ev("Leave").i("t", w->id).i("ret", w->id * 7);
+    w->done = true;
+    return (void*)(uintptr_t)(w->id * 7);
+}
+static int run_stealsb(int execs) {
+    for (int ex = 0; ex < execs; ex++) {
+        vt::Ev("Reset").s("prim", "stealsb").i("ex", ex).i("n", 2).i("vcpus", 2).raw("flags", "[2,1]").b("pooled", g_pooled).b("tpool", false);
+        SB t; t.id = 1; t.sleep_us = 2 * 1000 * 1000;
+        SB m; m.id = 2; m.sleep_us = 0;
+        vt::Ev("CreateInv").i("t", 1).b("join", true).b("steal", true).b("pool", false);
+        auto tt = thread_create(&sb_entry, &t, 128 * 1024, 0, THREAD_JOINABLE | THREAD_ENABLE_WORK_STEALING);
+        vt::Ev("CreateResp").i("t", 1).i("stack", g_stacks.find(tt));
+        vtp::reg().set(tt, 1);
+        while (thread_stat(tt) != states::SLEEPING) thread_yield();          // T is asleep on vCPU 0
+        static std::atomic<thread*> tm; tm = nullptr;
+        std::atomic<bool> pdone{false}, go{false};
+        vtp::Worker P; P.id = 90;
+        P.body = [&] {
+            while (!go.load()) thread_yield();                                    // vCPU 0's OS thread is parked from now on
+            vt::Ev("CreateInv").i("t", 2).b("join", true).b("steal", true).b("pool", false);
+            auto mm = thread_create(&sb_entry, &m, 128 * 1024, 0, THREAD_JOINABLE | THREAD_ENABLE_WORK_STEALING);
+            vt::Ev("CreateResp").i("t", 2).i("stack", g_stacks.find(mm));
+            vtp::reg().set(mm, 2); tm = mm;
+            thread_migrate(mm, g_vc.vc[0]);                                       // head of vCPU 0's stand-by queue
+            thread_interrupt(tt, EINTR);                                          // T queues behind it, still in the sleep queue
+            thread_usleep(8000);                                                  // vCPU 1 idles: its idler scans vCPU 0
+            pdone = true;
+        };
+        vtp::spawn_on(&P, g_vc.vc[1]);
+        thread_usleep(1000);                                                      // P is on vCPU 1, spinning on `go`
+        go = true;
+        ::usleep(25 * 1000);                                                      // vCPU 0 busy (does not drain its stand-by queue)
+        uint64_t waited = 0;
+        while (!(t.done.load() && m.done.load() && pdone.load()) && waited < 5 * 1000 * 1000) { thread_usleep(1000); waited += 1000; }
+        if (!(t.done.load() && m.done.load() && pdone.load())) { vt::Ev("Hang").raw("blocked", "[]").s("where", "stealsb").s("what", "life"); vt::flush(); return 4; }
+        vt::Ev("JoinInv").i("t", 1); void* r1 = thread_join((join_handle*)tt); vt::Ev("JoinResp").i("t", 1).i("ret", (int64_t)(uintptr_t)r1);
+        vt::Ev("JoinInv").i("t", 2); void* r2 = thread_join((join_handle*)tm.load()); vt::Ev("JoinResp").i("t", 2).i("ret", (int64_t)(uintptr_t)r2);
+        thread_join(P.jh);
+        thread_usleep(2000);
+        vt::Arr sl; for (size_t v = 0; v < g_vc.vc.size(); v++) sl.i((int64_t)get_info(INFO_SLEEPING_THREAD_NUM, g_vc.vc[v]) - (v > 0 ? 1 : 0));
+        vt::Ev("StealSb").i("t_ran_on", t.ran_on.load()).i("m_ran_on", m.ran_on.load()).raw("sleeping", sl.str());
+        vt::Ev("Quiesce").raw("nth", "[0,0]");
+    }
+    return 0;
+}
+
 int main(int argc, char** argv) {
     std::string prim = vt::arg(argc, argv, "--prim", "life");
     g_execs = atoi(vt::arg(argc, argv, "--execs", "50"));
@@ -318,7 +376,7 @@ int main(int argc, char** argv) {
     std::vector<int> flags;
     bool stealing = !vt::flag(argc, argv, "--nosteal");
     for (int i = 0; i < g_vcpus; i++) flags.push_back(stealing ? (int)r.below(4) : 0);
-    if (prim == "steal9") { flags = {2, 1}; }
+    if (prim == "steal9" || prim == "stealsb") { flags = {2, 1}; }
     vcpu_init(flags[0]);
     vtp::t0() = photon::__update_now();
     vtp::reg().set(CURRENT, 100);
@@ -330,6 +388,7 @@ int main(int argc, char** argv) {
     int rc = 0;
     g_stacks.quarantining = !g_pooled;        // (the pooled allocator recycles stacks itself; quarantine only with the default one)
     if (prim == "steal9") rc = run_steal9(200);
+    else if (prim == "stealsb") rc = run_stealsb(g_execs);
     else for (int ex = 0; ex < g_execs; ex++)
         if (!(prim == "joinrace" ? exec_joinrace(ex, r) : exec_life(ex, r))) { rc = 4; break; }
     wd.end();
